@@ -193,6 +193,8 @@ def work(item):
 def wellformed(steps):
     """shrinking must not leave the program class: a module pseudo-form provides identifiers that its body defines, and appears first only"""
     for i, st in enumerate(steps):
+        if ("provide" in st or "require" in st) and not MODRE.match(st):
+            return False  # module forms outside the pseudo-form are not part of the reference
         if "%module" in st:
             m = MODRE.match(st)
             if i != 0 or not m:
